@@ -4,6 +4,7 @@ package main
 // State: symbolic heap + locals at a program point.
 
 import (
+	"regexp"
 	"fmt"
 	"go/token"
 	"go/types"
@@ -321,6 +322,8 @@ func isAggregate(t types.Type) bool {
 }
 
 // emb: address of an aggregate field embedded by value in the object at ref.
+var boundVarRe = regexp.MustCompile(`(^|[ (])[qp]_[A-Za-z0-9_#]+`)
+
 func (vc *VC) emb(S types.Type, fname, ref string) string {
 	n := "emb_" + sanitize(structKey(S)) + "_" + fname
 	if _, ok := vc.decls[n]; !ok {
@@ -330,7 +333,11 @@ func (vc *VC) emb(S types.Type, fname, ref string) string {
 		vc.axiom("(forall ((r Int)) (! (=> (not (= r 0)) (< (" + n + " r) 0)) :pattern ((" + n + " r))))")
 	}
 	t := "(" + n + " " + ref + ")"
-	// ground instances of the two axioms (the quantified forms are dropped in lock-discipline VCs)
+	// ground instances of the two axioms (the quantified forms are dropped in lock-discipline VCs); not for a term under a
+	// spec quantifier (it mentions the bound variable q_x / p_x, which is not in scope of a top-level assertion)
+	if boundVarRe.MatchString(ref) {
+		return t
+	}
 	vc.axiomOnce("(and (= (" + n + "_inv " + t + ") " + ref + ") (=> (not (= " + ref + " 0)) (< " + t + " 0)))")
 	return t
 }
